@@ -72,6 +72,7 @@ pub const SNIPPETS: &[&str] = &[
     "defvar v = Foo<1, \"x\" = 2>.field[0]{1, 2-3};\n",
     "defvar s = L[1...2, 3];\n",
     "defvar e = []<int>;\n",
+    "defvar tl = [1, 2]<int>;\nclass TL<list<string> s = [\"a\"]<string>> { list<list<int>> ll = [[1]<int>, []<int>]<list<int>>; }\n",
     "class A : B<x = 1>;\n",
     "class C { let f{3-0} = 1; let g{1, 2} = 0b11; }\n",
     "#define M\n#ifdef M\nclass InM;\n#else\nclass NotM;\n#endif\n",
